@@ -304,6 +304,9 @@ struct HashMon {
     poison_info: Vec<(usize, u8, bool)>,
     /// C04: (min expiry of the funding set, height told) when the held set first became fully funded
     funded_at: Option<(u32, u32)>,
+    /// C04: (min expiry over the HTLCs held, height told) when the plugin last issued a durable-state write for
+    /// this hash while a funded set was held and no pay was outstanding: the attempt is being initiated
+    initiated_at: Option<(u32, u32)>,
     /// C11: virtual time (ms) at which the plugin last received an RPC answer concerning this hash
     last_answer_ms: Option<u64>,
     /// C11: the stored state the plugin read for this hash in this incarnation was Free/absent
@@ -465,6 +468,7 @@ impl W {
             m.poisoned.clear();
             m.poison_info.clear();
             m.funded_at = None;
+            m.initiated_at = None;
             m.last_answer_ms = None;
             m.read_free_at = None;
         }
@@ -827,6 +831,21 @@ impl W {
                 self.b_trace.push(format!("req {} {}", r.label, normalise_stamps(&r.params.to_string())));
             }
             self.req_labels.push(r.label.clone());
+            if r.method == Method::Datastore && r.label.starts_with("datastore[state]") {
+                let hashes: Vec<String> = self.mon.keys().cloned().collect();
+                for h in hashes {
+                    if !r.label.contains(&format!("@{}", &h[..4])) {
+                        continue;
+                    }
+                    let held: Vec<usize> = self.held_for(&h).into_iter().filter(|t| self.tramp_amount(*t).is_some()).collect();
+                    let m = &self.mon[&h];
+                    if m.funded_at.is_some() && m.paying_set.is_empty() && !held.is_empty() {
+                        let e = held.iter().map(|t| self.cfg.templates[*t].spec.cltv_expiry).min().unwrap_or(u32::MAX);
+                        let th = self.told_height;
+                        self.mon.get_mut(&h).unwrap().initiated_at = Some((e, th));
+                    }
+                }
+            }
             self.view.add(&("req", &r.label, r.params.to_string()));
             self.trace.push(format!("  plugin -> {} {}", r.label, compact(&r.params)));
         }
@@ -1065,9 +1084,23 @@ impl W {
         // C04
         let maxdelay = r.params.get("maxdelay").and_then(|a| a.as_u64());
         let funded = self.mon.get(&hash).and_then(|m| m.funded_at);
+        let initiated = self.mon.get(&hash).and_then(|m| m.initiated_at);
         match (maxdelay, funded) {
-            (Some(d), Some((e, h))) => {
-                let bound = (e as i64 - h as i64 - cfg.safety_delta as i64).max(0) as u64;
+            (Some(d), Some((e0, h0))) => {
+                // two upper bounds every correct implementation respects: the funding moment's, and the one of
+                // the moment the attempt was initiated (first durable intent write) — HTLCs held then fund it too
+                let b0 = (e0 as i64 - h0 as i64 - cfg.safety_delta as i64).max(0) as u64;
+                let (e, h, bound) = match initiated {
+                    Some((e1, h1)) => {
+                        let b1 = (e1 as i64 - h1 as i64 - cfg.safety_delta as i64).max(0) as u64;
+                        if b1 < b0 {
+                            (e1, h1, b1)
+                        } else {
+                            (e0, h0, b0)
+                        }
+                    }
+                    None => (e0, h0, b0),
+                };
                 if d > cfg.policy_delta as u64 {
                     self.violate("C04", "policy-cap", "maxdelay above the policy CLTV delta".into(), format!("maxdelay {} policy {}", d, cfg.policy_delta));
                 }
@@ -1333,6 +1366,7 @@ impl W {
                 }
             } else if self.held_for(h).is_empty() {
                 self.mon.get_mut(h).unwrap().funded_at = None;
+                self.mon.get_mut(h).unwrap().initiated_at = None;
             }
         }
     }
